@@ -90,3 +90,18 @@ Proof.
     destruct (Z.leb a v); reflexivity.
   - vm_compute. reflexivity.
 Qed.
+
+(* a record is the disjunction of its entries: merging two records can only add matches *)
+Theorem is_affected_app v1 v2 q :
+  is_affected (v1 ++ v2) q = is_affected v1 q || is_affected v2 q.
+Proof.
+  unfold is_affected. rewrite existsb_app. destruct (q_known q); reflexivity.
+Qed.
+
+Theorem is_affected_monotone v1 v2 q :
+  (forall a, In a v1 -> In a v2) -> is_affected v1 q = true -> is_affected v2 q = true.
+Proof.
+  unfold is_affected. intros Hsub H. apply andb_true_iff in H as [Hk He].
+  rewrite Hk. cbn. apply existsb_exists in He as [a [Ha Hm]].
+  apply existsb_exists. exists a. split; [apply Hsub; exact Ha|exact Hm].
+Qed.
